@@ -9,6 +9,7 @@ CONSTANTS
   PolW = "min"
   FormOf <- FormsOAU
   UpOf <- UpNone
+  ClientOf <- ClientsPlain
   MaxToggles = 0
   MwEnabled = TRUE
   Variant = "asWritten"
